@@ -82,6 +82,24 @@ func batchVerdict(t gen.Triple, zip bool, n, pos int, eseed int64) (entry bool, 
 		keys[i], msgs[i], sigs[i] = comp[j].Pub, comp[j].Msg, comp[j].Sig
 		j++
 	}
+	// every fifth case an honest companion of the same 64-entry chunk is damaged,
+	// so that the chunk is decided by the per-signature fallback
+	bpos := -1
+	if n >= 2 && eseed%5 == 0 {
+		lo := (pos / 64) * 64
+		hi := lo + 64
+		if hi > n {
+			hi = n
+		}
+		if hi-lo >= 2 {
+			bpos = lo + int((eseed/5)%int64(hi-lo))
+			if bpos == pos {
+				bpos = lo + (pos-lo+1)%(hi-lo)
+			}
+			sigs[bpos] = append([]byte(nil), sigs[bpos]...)
+			sigs[bpos][34] ^= 0x20
+		}
+	}
 	var valid []bool
 	pan = safe(func() {
 		all, valid, err = ed25519.VerifyBatch(rand.New(rand.NewSource(eseed)), keys, msgs, sigs, libOpts(t.V, zip))
@@ -91,9 +109,15 @@ func batchVerdict(t gen.Triple, zip bool, n, pos int, eseed int64) (entry bool, 
 	}
 	others = true
 	for i, v := range valid {
-		if i != pos && !v {
+		if i != pos && i != bpos && !v {
 			others = false
 		}
+	}
+	if bpos >= 0 {
+		if valid[bpos] || all {
+			others = false // the damaged companion must be reported invalid
+		}
+		return valid[pos], others, valid[pos], nil, ""
 	}
 	return valid[pos], others, all, nil, ""
 }
@@ -196,9 +220,16 @@ func judgeRelation(rec *ev.Rec, t gen.Triple) bool {
 // mostly small batches, sometimes multi-chunk ones with the entry in the
 // second or third 64-entry chunk (offset arithmetic) or at a chunk edge.
 func pickShape(rng *rand.Rand) (n, pos int) {
-	if rng.Intn(10) < 7 {
+	switch r := rng.Intn(20); {
+	case r < 11:
 		n = []int{4, 5, 7, 8}[rng.Intn(4)]
 		return n, rng.Intn(n)
+	case r < 13: // fewer than 4 entries: every entry takes the per-signature path
+		n = 1 + rng.Intn(3)
+		return n, rng.Intn(n)
+	case r < 15: // entry in the 1..3-entry remainder behind full chunks
+		n = 65 + rng.Intn(3)
+		return n, 64 + rng.Intn(n-64)
 	}
 	switch rng.Intn(6) {
 	case 0:
